@@ -116,6 +116,16 @@ func lemmaLastBrkRange(s string, i int) bool {
 
 // ---- representation invariant of SourceMapper ----
 
+// exported forms for the contracts of package ast (the code writer keeps the mapper's cursor in step with its buffer)
+func SmInv(m *SourceMapper) bool          { return smInv(m) }
+func GenLine(m *SourceMapper) int         { return m.generatedLine }
+func GenCol(m *SourceMapper) int          { return m.generatedColumn }
+func Brk(s string, i int) int             { return brk(s, i) }
+func ColAfter(c int, s string, i int) int { return colAfter(c, s, i) }
+func NumMappings(m *SourceMapper) int     { return len(m.mappings) }
+func MappingAt(m *SourceMapper, j int) Mapping { return m.mappings[j] }
+func NameAt(m *SourceMapper, i int) string { return m.names[i] }
+
 func bounded40(x int) bool { return -(1<<40) < x && x < (1<<40) }
 
 func smInv(m *SourceMapper) bool {
